@@ -1019,7 +1019,9 @@ func ruleEEquality(p *Program, r *Reporter) {
 			all = append(all, eqLoop{h, body})
 		}
 	}
-	sort.Slice(all, func(i, j int) bool { return all[i].h.Parent().Pos() < all[j].h.Parent().Pos() || all[i].h.Parent() == all[j].h.Parent() && all[i].h.Index < all[j].h.Index })
+	sort.Slice(all, func(i, j int) bool {
+		return all[i].h.Parent().Pos() < all[j].h.Parent().Pos() || all[i].h.Parent() == all[j].h.Parent() && all[i].h.Index < all[j].h.Index
+	})
 	nrec := 0
 	for _, lp := range all {
 		h, body := lp.h, lp.body
